@@ -224,6 +224,26 @@ class FlagReach:
         self.body = body
         self.flags = list(flags)
         self.succs = body.succs()
+        # snapshots: locals whose only definition is a plain copy of a flag (or of another snapshot), e.g. a flag passed
+        # to a helper as an argument; their value is fixed when the copy is made
+        self.snap = {}
+        defs = {}
+        for bb, i, s in body.stmts():
+            if s["k"] == "assign":
+                defs.setdefault(s["place"]["l"], []).append(s if not s["place"]["p"] else None)
+        for bb, t in body.calls():
+            if t.get("dest") is not None:
+                defs.setdefault(t["dest"]["l"], []).append(None)
+        changed = True
+        while changed:
+            changed = False
+            for l, ds in defs.items():
+                if l in self.snap or l in self.flags or len(ds) != 1 or ds[0] is None or ds[0]["rv"]["k"] != "use":
+                    continue
+                p = ds[0]["rv"]["op"].get("copy") or ds[0]["rv"]["op"].get("move")
+                if p is not None and not p["p"] and (p["l"] in self.flags or p["l"] in self.snap):
+                    self.snap[l] = p["l"]
+                    changed = True
 
     @staticmethod
     def find_flags(body):
@@ -254,16 +274,18 @@ class FlagReach:
             rv = s["rv"]
             if dst in self.flags and rv["k"] == "use" and "const" in rv["op"]:
                 vals[dst] = rv["op"]["const"].get("int")
+            elif dst in self.snap:
+                vals[dst] = vals.get(self.snap[dst])
             elif rv["k"] == "use":
                 p = rv["op"].get("copy") or rv["op"].get("move")
-                if p is not None and not p["p"] and p["l"] in self.flags:
+                if p is not None and not p["p"] and (p["l"] in self.flags or p["l"] in self.snap):
                     copies[dst] = (p["l"], False)
                 elif p is not None and not p["p"] and p["l"] in copies:
                     copies[dst] = copies[p["l"]]
             elif rv["k"] == "unop" and rv["op"] == "Not":
                 p = rv["a"].get("copy") or rv["a"].get("move")
                 if p is not None and not p["p"]:
-                    if p["l"] in self.flags:
+                    if p["l"] in self.flags or p["l"] in self.snap:
                         copies[dst] = (p["l"], True)
                     elif p["l"] in copies:
                         copies[dst] = (copies[p["l"]][0], not copies[p["l"]][1])
@@ -273,7 +295,7 @@ class FlagReach:
             p = t["discr"].get("copy") or t["discr"].get("move")
             if p is not None and not p["p"]:
                 src = None
-                if p["l"] in self.flags:
+                if p["l"] in self.flags or p["l"] in self.snap:
                     src = (p["l"], False)
                 elif p["l"] in copies:
                     src = copies[p["l"]]
